@@ -12,7 +12,7 @@ type ConcatenatedHeader struct {
 }
 
 func (h ConcatenatedHeader) Len() int {
-	if h.Reference < 0xFF {
+	if h.Reference <= 0xFF {
 		return 5
 	}
 	return 6
